@@ -570,6 +570,15 @@ func main() {
 			cases = append(cases, Case{Kind: "string", Position: p, S: []byte(s), Str: fmt.Sprintf("%q", s), Class: classOf(s)})
 		}
 	}
+	// path members keep their spelling: uncleaned paths (trailing and doubled slashes, dot segments) at
+	// every member that holds a path, in both tiers
+	pathSpellings := []string{"mnt/models/", "mnt//cache", "mnt/./v1", "mnt/../v1", "./mnt", "../mnt", "mnt/.", "mnt/..", "/mnt", "", ".", "..", "mnt//cache/./v1/", "mnt\\v1", "mnt/ v1 /"}
+	for _, s := range pathSpellings {
+		for _, p := range []string{"hook-path", "mount-hostpath", "mount-containerpath", "devnode-hostpath", "devnode-path"} {
+			cases = append(cases, Case{Kind: "string", Position: p, S: []byte(s), Str: fmt.Sprintf("%q", s), Class: "path-spelling"})
+		}
+	}
+	r.Extra["uncleaned_path_spellings_per_path_member"] = len(pathSpellings)
 	r.Rule = fmt.Sprintf("valid Specs with every optional member populated x a string domain (every code point U+0000-U+00FF alone, as prefix, suffix and infix; %d YAML/JSON-sensitive spellings; thorough: all ordered pairs of them) inserted at %d free string positions %v, plus %d numeric/shape variants (int64/uint32/file-mode/timeout extremes, empty vs nil lists, list order); "+
 		"plus overwrite histories (each of 9 Specs that differ at the end of the document written over each of them and over 3 foreign contents, under the same name); each written with WriteSpec as .json, .yaml and extension-less, read back with ReadSpec and through a cache. Oracle: read-back Spec equals the original (nil == empty), cached devices equal, JSON-loaded == YAML-loaded. "+
 		"Distinct by construction; non-trivial = accepted for writing", len(sensitive), npos, positions[:npos], len(nums))
